@@ -120,7 +120,9 @@ func (x *Exec) heapGet(st *State, key string, sort Sort) Term {
 func (x *Exec) heapSet(st *State, key string, v Term) {
 	x.heapSorts[key] = v.Sort
 	st.heap[key] = v
-	x.written[key] = true
+	if !x.freshStore {
+		x.written[key] = true
+	}
 }
 
 // havocKey replaces a heap key's content with a fresh value.
@@ -188,7 +190,13 @@ func (x *Exec) fresh(typ types.Type, hint string) Value {
 		return VSlice{Backing{Heap: true, Ref: b}, o, l, c}
 	case KArray:
 		s, _ := scalarSort(typ)
-		return VTerm{vc.Fresh(hint, s)}
+		t := vc.Fresh(hint, s)
+		if at := typ.Underlying().(*types.Array); kindOf(at.Elem()) == KInt && at.Len() <= 64 && elemSort(s) == SInt {
+			for i := int64(0); i < at.Len(); i++ {
+				vc.Assert(x.rangeFact(Select(t, IntLit(i)), at.Elem()))
+			}
+		}
+		return VTerm{t}
 	case KStruct:
 		st := typ.Underlying().(*types.Struct)
 		v := VStruct{}
